@@ -14,9 +14,9 @@ ErrPat(N, s) == [i \in 1..N |-> CASE s = 0 -> Zero [] s = 1 -> Q(((i * 3) % 4), 
 NoB == [row |-> -1]
 Init == /\ \E N \in Ns : der \in [1..2 -> Vals] /\ \E s \in 0..3 : err = ErrPat(N, s)
         /\ B = NoB /\ pen = <<>>
-\* the table is completed in one step and evaluated in the next (TLC's workers share the enumeration, and
+\* the table is completed entry by entry and evaluated in a last step (TLC's workers share the enumeration, and
 \* simulation only evaluates the table it picked)
-Fill == /\ Len(der) < Len(err) /\ \E rest \in [1..(Len(err) - 2) -> Vals] : der' = der \o rest
+Fill == /\ Len(der) < Len(err) /\ \E v \in Vals : der' = Append(der, v)
         /\ UNCHANGED <<err, B, pen>>
 Evaluate == /\ Len(der) = Len(err) /\ B = NoB
             /\ B' = Best(der, err) /\ pen' = Penalty(der) /\ UNCHANGED <<der, err>>
